@@ -51,6 +51,8 @@ Final(modCount, t) ==
     /\ modCount = 0
     /\ lastT' = Max(lastT, t)
     /\ UNCHANGED <<ids, prio, out, limit, expiry, st>>
+\* a single microtask submitted while nothing runs and nothing waits was admitted within ms milliseconds
+IdleProbe(ms) == ms <= PromptMs /\ UNCHANGED avars
 \* `limit` probe microtasks submitted together after quiescence were all admitted within ms milliseconds
 \* (the global count is back to zero: later microtasks are admitted immediately) ...
 ProbeAdmitted(ms) == ms <= PromptMs /\ UNCHANGED avars
